@@ -1474,7 +1474,7 @@ fn finish_faults(id: &str, tier: Tier, seed: u64, t0: Instant, mut summary: RunS
     summary.extra.insert("exhaustive".into(), serde_json::json!(false));
     let rule = match id {
         "C04" => "enumeration: for every base container (small containers of two shapes x packagings x compressions), for every pack found by the independent decoder, EVERY byte position of its checked range [start, start+checkInfoPos) and of its check block x masks {0x01,0x80,0xFF}, plus seeded scripts of 2-8 simultaneous xor/zero/overwrite edits inside the range; executed by reader children. Oracle: pristine container: every pack check, every file check and Container::check are Ok(true); altered: the check of that pack (by uuid) and Container::check answer Ok(false) or Err, never Ok(true). Non-trivial = the reader child returned a value (child deaths are C06's domain and excluded, counted under outcome:*); distinct by (base, structure kind hit, edit kind, outcome, profile).",
-        "C05" => "enumeration: for every base container, EVERY byte position of every file x masks {0x01,0x80,0xFF}, plus seeded same-length scripts (zeroed / overwritten ranges of 2..512 bytes and xor, 1-4 edits, first position stratified per structure through the independent decoder's file map). Oracle: the reader child's access-by-access dump (pack count, per-pack content counts, index headers, every entry's variant and values, content sizes) equals the pristine dump or that access (or an enclosing one) returned an error; content bytes may differ only if Container::check then answers Ok(false)/Err. Non-trivial = the alteration hits a structure the dump path reads (everything but pack tails / foreign prefix) and the child returned a value; distinct by (base, structure kind hit, edit kind, outcome, profile).",
+        "C05" => "enumeration: for every base container, EVERY byte position of every file x masks {0x01,0x80,0xFF}, plus seeded same-length scripts (zeroed / overwritten ranges of 2..512 bytes and xor, 1-4 edits, first position stratified per structure through the independent decoder's file map). Oracle: the reader child's access-by-access dump (pack count, per-pack content counts, index headers, every entry's variant and values, content sizes) equals the pristine dump or that access (or an enclosing one) returned an error; content bytes may differ only if Container::check then answers Ok(false)/Err. Non-trivial = the alteration hits a structure the dump path reads (everything but pack tails / foreign prefix) and the child returned a value; distinct by (base, structure kind hit, edit kind, outcome, profile). Bases include hand-assembled containers in three layouts (one file; two content packs sharing one external file; a pack stored twice in the container pack), every pack carrying free data in the manifest; the child also opens the manifest pack on its own and reports the pack list and every pack's free data by id and by uuid, compared like every other structural answer.",
         _ => "enumeration: for every base container (all four compressions, one-file and two-file packagings), for every file: EVERY truncation length, EVERY byte position x masks {0x01,0xFF}, whole-file replacement {empty, random, text, 'jbkC'+random, another valid container} x 7 sizes, appended garbage x 7 sizes, seeded range scripts (zero/overwrite 2..512 bytes, optionally combined with truncation and appended garbage), in BOTH build profiles (debug-assertions+overflow-checks, and release). The reader child opens, dumps everything, streams every content whole and through 7-byte reads, runs every check. Oracle: outcome is a value or error value; panic (exit 101), abort (SIGABRT), any signal, blocked forever (all threads asleep, no cpu over 1 s) and no-progress (decode loop publishes the same length 1000 times) are violations; a wall-clock timeout is inconclusive. Non-trivial = the outcome differs from the pristine dump (the damage was observed); distinct by (base, structure kind hit, edit kind, outcome, profile).",
     };
     write_evidence(id, "fault_enumeration", tier, seed, rule, vec!["block transplants and re-checksummed content are outside the claim and not generated".into(), "positions are classified through the independent decoder's map of the pristine file".into()], t0, &summary);
